@@ -79,8 +79,8 @@ struct FnEmit
             Function* G = dyn_cast<Function>(CB->getCalledOperand()->stripPointerCasts());
             if (G && G->getFunctionType() != CB->getFunctionType()) G = nullptr;
             if (G) return C.resumable.count(G) > 0;
-            for (Function* H : C.addrTaken)
-                if (compatibleFT(H->getFunctionType(), CB->getFunctionType()) && C.resumable.count(H)) return true;
+            for (Function* H : C.indirectTargets(CB))
+                if (C.resumable.count(H)) return true;
         }
         return false;
     }
@@ -536,6 +536,27 @@ struct FnEmit
         bool mayThrow = !CB.doesNotThrow();
         std::string lhs = CB.getType()->isVoidTy() ? "" : val(&CB) + " = ";
         if (Callee && isVisibleInst(CB)) visiblePrologue();    // __atomic_* libcalls
+        if (Callee && Callee->isDeclaration() && (Callee->getName() == "_Znwm" || Callee->getName() == "_Znam" || Callee->getName() == "malloc"))
+            if (auto* N = dyn_cast<ConstantInt>(CB.getArgOperand(0)))
+            {
+                // typed allocation: CBMC then creates an object of the struct type (field-sensitive, pointer fields keep
+                // their points-to sets) instead of an untyped byte array
+                Type* T = nullptr;
+                bool ok = true;
+                for (User* U : CB.users())
+                    if (auto* BC = dyn_cast<BitCastInst>(U))
+                    {
+                        Type* E = BC->getType()->getPointerElementType();
+                        if (!E->isStructTy()) continue;
+                        if (T && T != E) ok = false;
+                        T = E;
+                    }
+                if (ok && T && T->isSized() && C.DL.getTypeAllocSize(T) == N->getZExtValue())
+                {
+                    os << "  " << lhs << "(u8*)VERIF_NEW(" << C.ty(T) << ");\n";
+                    return;
+                }
+            }
         if (Callee && Callee->isDeclaration())
         {
             C.usedExternals.insert(Callee);
@@ -568,19 +589,27 @@ struct FnEmit
             FunctionType* FT = CB.getFunctionType();
             std::vector<Function*> cands;
             bool anyRes = false;
-            if (res)
-                for (Function* G : C.addrTaken)
-                    if (compatibleFT(G->getFunctionType(), FT) && !G->isDeclaration())
-                    {
-                        cands.push_back(G);
-                        anyRes |= C.resumable.count(G) > 0;
-                    }
+            for (Function* G : C.indirectTargets(&CB))
+            {
+                cands.push_back(G);
+                anyRes |= res && C.resumable.count(G) > 0;
+            }
             std::string fp = "((" + C.ty(FT) + "*)" + val(CV) + ")";
             if (!anyRes)
             {
-                os << "  " << lhs << fp << "(";
-                for (unsigned i = 0; i < CB.arg_size(); ++i) os << (i ? ", " : "") << val(CB.getArgOperand(i));
-                os << ");\n";
+                // explicit dispatch over the possible targets (CBMC's own function-pointer removal matches pointer
+                // parameters loosely and would symbolically execute type-incompatible candidates)
+                bool first = true;
+                for (Function* G : cands)
+                {
+                    std::string call = C.gname(G) + "(";
+                    for (unsigned j = 0; j < CB.arg_size(); ++j) call += (j ? ", " : "") + argFor(G, j, CB.getArgOperand(j));
+                    call += ")";
+                    os << "  " << (first ? "" : "else ") << "if ((u8*)" << fp << " == (u8*)&" << C.gname(G) << ") { " << lhs
+                       << (CB.getType()->isVoidTy() ? call : retFrom(G, CB, call)) << "; }\n";
+                    first = false;
+                }
+                os << "  " << (first ? "" : "else ") << "{ VERIF_ASSERT(0, \"indirect call: unknown target\"); VERIF_ASSUME(0); }\n";
             }
             else
             {
